@@ -1,6 +1,6 @@
 """Helpers shared by C01/C03/C04: calling the public integrators generically in d populations,
 talking to the Lean model's sweep/integ ops."""
-import numpy as np, itertools
+import numpy as np, itertools, os
 from . import common, gen
 from .common import rat, fmt_list, fmt_nd, fmt_grids, parse_nd, close
 
@@ -64,3 +64,275 @@ def trap_w(xx):
     w = np.zeros(len(xx)); dx = np.diff(xx)
     w[:-1] += dx / 2; w[1:] += dx / 2
     return w
+
+# ------------------------------------------------------------------ K: translated driver programs, all-varying parameters, delj
+def _r(v, bits=7):
+    return gen.round_sig(float(v), bits)
+
+def affine_fn(a, b):
+    return (lambda t, a=a, b=b: a + b * t)
+
+def k_program(chk, ctx, rng, rounds, tier, modes=('vary', 'const', 'delj', 'delj-one')):
+    """Correspondence for the schedule itself (1-5 populations, 2-3 steps, exact small rationals, small grids):
+      'vary'     EVERY population's size, selection, dominance and migration rates, theta0 (and beta in 1-D) are affine functions of
+                 time: implementation vs model `integ fn` (integrateFn of the sweep) AND vs `integ prog fn` — the TRANSLATED time loop
+                 of the driver (Generated/Coeffs.lean `driverPrograms`) run by the statement semantics of Model/Integrate.lean;
+      'const'    constant parameters (1-3 populations: the pre-computed-coefficient drivers) vs `integ const` and `integ prog const`;
+      'delj'     Integration.use_delj_trick = True through the C kernels (theta0 passed as a function), several steps: the exp values
+                 of Chang-Cooper's delta_j are supplied to the model per axis (as in harness/c02.py), everything else exact;
+      'delj-one' one step with the option on and every parameter time-dependent (the kernels see the values at next_t = T)."""
+    from .c02 import eps_array
+    dadi = ctx['dadi']; I = dadi.Integration; drv = ctx['driver']
+    if drv is None or drv.p is None:
+        return
+    SZ = {1: (5, 8), 2: (4, 5), 3: (3, 4 if tier == 'thorough' else 3), 4: (3, 3), 5: (3, 3)}
+    # the default timescale_factor 1e-3 is a 53-bit binary fraction: every dt, every next_t and every parameter value a + b*next_t would
+    # carry it.  A power of two next to it keeps the exact rationals of the model short (the schedule is the same function of it).
+    tf_saved = I.timescale_factor
+    I.timescale_factor = 2.0 ** -10
+    try:
+        _k_program_cases(chk, ctx, rng, rounds, tier, modes, SZ, eps_array)
+    finally:
+        I.timescale_factor = tf_saved
+
+def _k_program_cases(chk, ctx, rng, rounds, tier, modes, SZ, eps_array):
+    dadi = ctx['dadi']; I = dadi.Integration; drv = ctx['driver']
+    # one round = every (mode, d) the mode supports: 'vary' and 'delj-one' in 1-5 populations, 'const' in 1-3 (the drivers with
+    # pre-computed coefficients), 'delj' over several steps in 1-3 (exact exp values make 4-D/5-D multi-step runs take minutes)
+    DIMS = {'vary': (1, 2, 3, 4, 5), 'const': (1, 2, 3), 'delj': (1, 2, 3), 'delj-one': (1, 2, 3, 4, 5)}
+    cases = [(m, d) for _ in range(rounds) for m in modes for d in DIMS[m]]
+    for it, (mode, d) in enumerate(cases):
+        lo, hi = SZ[d]
+        pts = int(rng.integers(lo, hi + 1))
+        xx, kind = gen.grid(rng, pts)
+        B = {1: 7, 2: 7, 3: 7, 4: 6, 5: 5}[d]       # significant bits of every input (arbitrary values otherwise): the exact model multiplies them up
+        _r = lambda v, bits=B: gen.round_sig(float(v), min(bits, B + 2))
+        xx = gen.coarse(xx, B + 1); xx[0] = 0.0; xx[-1] = 1.0
+        if not np.all(np.diff(xx) > 0): xx = np.linspace(0, 1, pts)
+        phi = gen.coarse(gen.density(rng, [pts] * d), B)
+        nus, ms, gammas, hs, th, fr, nm = random_model(rng, d, g_max=6, m_max=3, nu_range=(0.3, 4))
+        nus = [_r(v) for v in nus]; gammas = [_r(v) for v in gammas]; hs = [_r(v) for v in hs]; th = _r(th)
+        ms = {k: _r(v) for k, v in ms.items()}
+        beta = _r(gen.loguniform(rng, 0.4, 3)) if d == 1 else None
+        dts = [I._compute_dt(np.diff(xx), nus[i], [ms[(i, j)] for j in range(d) if j != i] or [0], gammas[i], hs[i]) for i in range(d)]
+        dt0 = min(dts)
+        nsteps = int(rng.integers(2, 4)) if (mode != 'delj' and d <= 3) else 2
+        T = _r(dt0 * (nsteps - 1 + float(rng.uniform(0.3, 0.7))) * (0.75 if mode == 'vary' else 1.0), 9)
+        if mode == 'delj-one': T = _r(dt0 * float(rng.uniform(0.3, 0.8)), 9)
+        vary = mode in ('vary', 'delj-one')
+        # slopes: the value changes by up to +-40 % over [0, T] (sizes stay positive, migration rates non-negative)
+        def slope(v, pos=True):
+            if not vary: return 0.0
+            s = float(rng.uniform(-0.4, 0.4)) * (abs(v) if v != 0 else (0.0 if pos else 1.0)) / T
+            return _r(s, 6)
+        nus1 = [slope(v) for v in nus]; gam1 = [slope(v, False) for v in gammas]; hs1 = [slope(v, False) * 0.5 for v in hs]
+        hs1 = [_r(v, 6) for v in hs1]
+        ms1 = {k: slope(v) for k, v in ms.items()}
+        th1 = slope(th); beta1 = slope(beta) if beta is not None else None
+        kw = kwargs_for(d, nus, ms, gammas, hs, th, fr, nm, beta)
+        if vary:
+            for i in range(d):
+                sfx = '' if d == 1 else str(i + 1)
+                kw['nu' + sfx] = affine_fn(nus[i], nus1[i]); kw['gamma' + sfx] = affine_fn(gammas[i], gam1[i]); kw['h' + sfx] = affine_fn(hs[i], hs1[i])
+                for j in range(d):
+                    if i != j and not (fr[i] or fr[j]):      # a frozen population takes the constant 0 (a function there is rejected on entry)
+                        kw['m%d%d' % (i + 1, j + 1)] = affine_fn(ms[(i, j)], ms1[(i, j)])
+                    elif i != j:
+                        ms1[(i, j)] = 0.0
+            if beta is not None: kw['beta'] = affine_fn(beta, beta1)
+        if mode != 'const':
+            kw['theta0'] = affine_fn(th, th1)
+        use = mode.startswith('delj')
+        eps_tok = '-'
+        rtol = 1e-9
+        inp = dict(mode=mode, d=d, pts=pts, grid=kind, xx=xx, T=T, nus=nus, nus1=nus1, gammas=gammas, gammas1=gam1, hs=hs, hs1=hs1,
+                   ms={'%d%d' % (a + 1, b + 1): v for (a, b), v in ms.items()}, ms1={'%d%d' % (a + 1, b + 1): v for (a, b), v in ms1.items()},
+                   theta0=th, theta1=th1, beta=beta, beta1=beta1, frozen=fr, nomut=nm, phi=phi)
+        if use:
+            # parameters the kernels see: the constants ('delj') / the values at next_t = T ('delj-one')
+            at = (lambda a, b: a + b * T) if mode == 'delj-one' else (lambda a, b: a)
+            eps_l = []; bad = False
+            for ax in range(d):
+                msx = [at(ms[(ax, j)], ms1[(ax, j)]) for j in range(d) if j != ax]
+                E, tmin, tmax = eps_array(phi, [xx] * d, ax, at(nus[ax], nus1[ax]), msx, at(gammas[ax], gam1[ax]), at(hs[ax], hs1[ax]),
+                                          at(beta, beta1) if beta is not None else None)
+                bad = bad or tmax > 300 or tmin < 1e-2
+                eps_l.append(E)
+            if bad:
+                chk.k_skipped += 1; chk.stat('K-program:skipped_delj_illconditioned'); continue
+            eps_tok = '|'.join(fmt_nd(E) for E in eps_l)
+            rtol = 1e-6
+        old = I.use_delj_trick
+        I.use_delj_trick = use
+        try:
+            impl = integrate(dadi, d, phi.copy(), xx, T, **kw)
+        except Exception as e:
+            chk.k_bad('program:%s:%dD' % (mode, d), inp, None, 'implementation raises %r' % (e,), None); continue
+        finally:
+            I.use_delj_trick = old
+        zero = [0.0] * d
+        p0 = pops_str(d, nus, ms, gammas, hs); p1 = pops_str(d, nus1, ms1, gam1, hs1)
+        bt0 = rat(beta) if beta is not None else '-'; bt1 = rat(beta1) if beta is not None else '-'
+        tail = [rat(I.timescale_factor), rat(T), '0', bools_str(fr), bools_str(nm), rat(th), rat(th1), bt0, bt1, p0, p1, fmt_grids([xx] * d), fmt_nd(phi), eps_tok]
+        asks = []
+        if mode == 'delj-one' and d >= 4:
+            asks = []      # filled below with the independent model only: exact exp values make a 4-D/5-D step cost seconds, once is enough
+        if mode == 'delj-one':
+            pT = pops_str(d, [a + b * T for a, b in zip(nus, nus1)], {k: ms[k] + ms1[k] * T for k in ms}, [a + b * T for a, b in zip(gammas, gam1)],
+                          [a + b * T for a, b in zip(hs, hs1)])
+            asks.append(('sweep', ' '.join(['sweep', rat(T), bools_str(fr), bools_str(nm), rat(th + th1 * T),
+                                            rat(beta + beta1 * T) if beta is not None else '-', pT, fmt_grids([xx] * d), fmt_nd(phi), eps_tok])))
+        elif mode == 'const':
+            asks.append(('integ_const', ' '.join(['integ', 'const', rat(I.timescale_factor), rat(T), '0', bools_str(fr), bools_str(nm), rat(th), bt0, p0,
+                                                   fmt_grids([xx] * d), fmt_nd(phi)])))
+        else:
+            asks.append(('integ_fn', ' '.join(['integ', 'fn'] + tail)))
+        if not (mode == 'delj-one' and d >= 4):
+            asks.append(('prog_const' if mode == 'const' else 'prog_fn', ' '.join(['integ', 'prog', 'const' if mode == 'const' else 'fn'] + tail)))
+        for opn, line in asks:
+            op = 'program:%s:%s:%dD' % (mode, opn, d)
+            import time as _t
+            t_ask = _t.time()
+            out = drv.ask(line)
+            chk.stats.setdefault('K_seconds', {}); chk.stats['K_seconds'][op] = round(chk.stats['K_seconds'].get(op, 0) + (_t.time() - t_ask), 2)
+            if os.environ.get('KP_DEBUG'): print('KP', op, pts, nsteps, round(_t.time() - t_ask, 2), flush=True)
+            if out.startswith('ok ') and opn == 'integ_const': out = 'ok ' + out[3:].split(' ', 1)[1]
+            if not out.startswith('ok '):
+                chk.k_bad(op, inp, None, out, None); continue
+            model, _ = parse_nd(out[3:])
+            ok, err, scale = close(impl, model, rtol=rtol)
+            if ok: chk.k_ok(op)
+            else: chk.k_bad(op, inp, impl, model, err)
+        chk.stat('K-program:' + mode); chk.stat('K-program:%dD' % d)
+
+# ------------------------------------------------------------------ L3: the schedule, observed on the real drivers
+def _dt_rule(tf, nu, ms, gamma, h):
+    """time step of one population, written from the documentation: timescale_factor / max(V, M) with the maxima of V = x(1-x)/nu (1/(4 nu)),
+    of the migration terms (sum of the rates) and of the selection term 2|gamma| |h + (1-2h)x| x(1-x) taken at x = 1/2 and x = 1/4"""
+    sel = abs(gamma) * 2 * max(abs(h + (1 - 2 * h) * 0.5) * 0.25, abs(h + (1 - 2 * h) * 0.25) * 0.1875)
+    mx = max(0.25 / nu, sum(ms), sel)
+    return tf / mx if mx > 0 else float('inf')
+
+def l3_schedule(chk, ctx, rng, n):
+    """'as the time-step rule promises' / 'with the same time steps', on the real code: every driver (1-5 populations; time-dependent with
+    EVERY parameter a function of time; constant, i.e. the pre-computed-coefficient drivers in 1-3 populations and constant functions
+    in 4-5) must take the steps  t_0 = 0, dt_i = rule(parameters at t_i), this_dt_i = min(dt_i, T - t_i), t_{i+1} = t_i + this_dt_i  until
+    t reaches T (no early exit, no equalised steps), inject dt_i * theta0(t_{i+1}) of new mutations into exactly the populations that
+    are neither frozen nor nomut, and sweep every non-frozen axis k, in order, with this_dt_i and the values nu_k, m_kl, gamma_k, h_k
+    (beta) of time t_{i+1}.  Observed by recording the kernel calls and the change made by each injection."""
+    import math
+    from .c02_precalc import Recorder
+    dadi = ctx['dadi']; I = dadi.Integration
+    AX = 'xyzab'
+    for it in range(n):
+        d = 1 + it % 5
+        varying = (it // 5) % 3 != 2
+        pts = {1: 12, 2: 8, 3: 6, 4: 5, 5: 4}[d] + int(rng.integers(0, 2))
+        xx = dadi.Numerics.default_grid(pts)
+        w = trap_w(xx)
+        phi = gen.density(rng, [pts] * d)
+        nus, ms, gammas, hs, th, fr, nm = random_model(rng, d, g_max=6, m_max=3, nu_range=(0.3, 4))
+        if d == 1: fr = [False]
+        beta = gen.loguniform(rng, 0.5, 2) if (d == 1 and rng.random() < 0.5) else None
+        tf = I.timescale_factor
+        dt0 = min(_dt_rule(tf, nus[i], [ms[(i, j)] for j in range(d) if j != i], gammas[i], hs[i]) for i in range(d))
+        T = dt0 * float(rng.uniform(2.2, 3.8))
+        def wave(v, amp):
+            a = float(rng.uniform(0.3, 1.0)) * amp; om = float(rng.uniform(1.0, 4.0)) / T; ph = float(rng.uniform(0, 6.28))
+            return (lambda t, v=v, a=a, om=om, ph=ph: v * (1 + a * math.sin(om * t + ph))) if varying else (lambda t, v=v: v)
+        f_nu = [wave(v, 0.4) for v in nus]; f_g = [wave(v, 0.4) for v in gammas]; f_h = [wave(v, 0.3) for v in hs]
+        f_m = {k: (wave(v, 0.4) if not (fr[k[0]] or fr[k[1]]) else (lambda t: 0.0)) for k, v in ms.items()}
+        f_th = wave(th, 0.3); f_b = wave(beta, 0.3) if beta is not None else None
+        kw = kwargs_for(d, nus, ms, gammas, hs, th, fr, nm, beta)
+        if varying:
+            for i in range(d):
+                sfx = '' if d == 1 else str(i + 1)
+                kw['nu' + sfx] = f_nu[i]; kw['gamma' + sfx] = f_g[i]; kw['h' + sfx] = f_h[i]
+                for j in range(d):
+                    if i != j and not (fr[i] or fr[j]): kw['m%d%d' % (i + 1, j + 1)] = f_m[(i, j)]
+            kw['theta0'] = f_th
+            if beta is not None: kw['beta'] = f_b
+        # the schedule, from the statement
+        steps = []; t = 0.0
+        while t < T and len(steps) < 50:
+            dt = min(_dt_rule(tf, f_nu[i](t), [f_m[(i, j)](t) for j in range(d) if j != i], f_g[i](t), f_h[i](t)) for i in range(d))
+            this = min(dt, T - t); steps.append((t, this, t + this)); t = t + this
+        key = 'schedule:%dD:%s' % (d, 'varying' if varying else 'constant')
+        chk.l3((key, tuple(fr), tuple(nm), beta is not None))
+        inp = dict(d=d, pts=pts, T=T, varying=varying, nus=nus, ms={'%d%d' % (a + 1, b + 1): v for (a, b), v in ms.items()}, gammas=gammas, hs=hs,
+                   theta0=th, beta=beta, frozen=fr, nomut=nm, expected_steps=[s[1] for s in steps])
+        if d == 1 and not varying:
+            # start from the density the scheme itself converges to under these constants: a step then changes nothing visible, and
+            # the driver still has to take every step up to T
+            try:
+                phi = integrate(dadi, 1, phi, xx, 25.0 * nus[0] / max(1.0, abs(gammas[0]) * nus[0]) + 10.0 * nus[0], **kw)
+                inp['start'] = 'stationary density of the scheme'
+            except Exception as e:
+                chk.fail(key + ':raises:' + type(e).__name__, 'integrator raises %r' % (e,), inp); continue
+        injected = []
+        iname = '_inject_mutations_%dD' % d
+        real_inj = getattr(I, iname)
+        def rec_inj(phi_, *a, **k):
+            before = phi_.copy(); out = real_inj(phi_, *a, **k); injected.append(out - before); return out
+        setattr(I, iname, rec_inj)
+        try:
+            with Recorder(dadi) as rec:
+                integrate(dadi, d, phi.copy(), xx, T, **kw)
+        except Exception as e:
+            chk.fail(key + ':raises:' + type(e).__name__, 'integrator raises %r' % (e,), inp); continue
+        finally:
+            setattr(I, iname, real_inj)
+        same = lambda a, b: abs(a - b) <= 1e-11 * max(abs(b), 1e-300) if b != 0 else abs(a) <= 1e-300
+        if len(injected) != len(steps):
+            chk.fail(key + ':number-of-steps', 'the driver took %d steps, the time-step rule gives %d (steps %s up to T = %.6g)' % (
+                len(injected), len(steps), ['%.6g' % s[1] for s in steps], T), inp); continue
+        bad = False
+        # injection: dt_i * theta0(t_{i+1}) / (2 x_1) of trapezoid mass at e_k of every receiving population, nothing elsewhere
+        for (t0_, this, nt), diff in zip(steps, injected):
+            for k in range(d):
+                on = (not fr[k]) and not (d == 2 and nm[k])
+                e = tuple(1 if l == k else 0 for l in range(d))
+                got = diff[e] * np.prod([w[i] for i in e]); want = this * f_th(nt) / (2 * xx[1]) if on else 0.0
+                if not (abs(got - want) <= 1e-10 * max(abs(want), 1e-300) if want else got == 0):
+                    chk.fail(key + ':inject:pop%d' % (k + 1), 'step from t=%.6g: injection adds trapezoid mass %.12g at e_%d (frozen=%s, nomut=%s), expected this_dt*theta0(next_t)/(2 x_1) = %.12g'
+                             % (t0_, got, k + 1, fr[k], nm[k] if d == 2 else None, want), inp); bad = True; break
+            if bad: break
+            rest = diff.copy()
+            for k in range(d): rest[tuple(1 if l == k else 0 for l in range(d))] = 0
+            if np.any(rest != 0):
+                chk.fail(key + ':inject:elsewhere', 'injection changed entries other than the unit multi-indices', inp); bad = True; break
+        if bad: continue
+        # kernel calls: per step every non-frozen axis in order
+        axes = [k for k in range(d) if not fr[k]]
+        calls = rec.calls
+        if len(calls) != len(steps) * len(axes):
+            chk.fail(key + ':number-of-sweeps', '%d kernel calls for %d steps x %d non-frozen axes' % (len(calls), len(steps), len(axes)), inp); continue
+        ci = 0
+        for (t0_, this, nt) in steps:
+            for k in axes:
+                name, pin, args, kwc, out = calls[ci]; ci += 1
+                if name == 'tridiag':
+                    a_, b_, c_, r_ = args
+                    with np.errstate(all='ignore'):
+                        q = r_ / pin if False else None
+                    continue        # 1-D constant driver: the step enters as r = phi/this_dt and b + 1/this_dt (checked through the injection above and the result in K)
+                pre = name.startswith('implicit_precalc_')
+                want_name = ('implicit_precalc_%dD%s' if pre else 'implicit_%dD%s') % (d, AX[k])
+                if name != want_name:
+                    chk.fail(key + ':sweep-order', 'step from t=%.6g: kernel %s called where the sweep along axis %d (%s) is due (frozen=%s)' % (t0_, name, k + 1, want_name, fr), inp); bad = True; break
+                if pre:
+                    got_dt = float(args[3])
+                else:
+                    sc = [float(x) for x in args[d:] if not isinstance(x, np.ndarray)]
+                    want = [f_nu[k](nt)] + [f_m[(k, l)](nt) for l in range(d) if l != k] + [f_g[k](nt), f_h[k](nt)] + ([f_b(nt) if f_b else 1.0] if d == 1 else [])
+                    got_dt = sc[len(want)]
+                    names = ['nu'] + ['m%d%d' % (k + 1, l + 1) for l in range(d) if l != k] + ['gamma', 'h'] + (['beta'] if d == 1 else [])
+                    for nm_, g_, w_ in zip(names, sc, want):
+                        if not same(g_, w_):
+                            chk.fail(key + ':kernel-arg:%s' % nm_, 'step from t=%.6g to %.6g: the sweep along axis %d got %s = %.12g, the value at the next time is %.12g (at the current time %.12g)'
+                                     % (t0_, nt, k + 1, nm_, g_, w_, dict(zip(names, [f_nu[k](t0_)] + [f_m[(k, l)](t0_) for l in range(d) if l != k] + [f_g[k](t0_), f_h[k](t0_)] + ([f_b(t0_) if f_b else 1.0] if d == 1 else [])))[nm_]), inp)
+                            bad = True; break
+                    if bad: break
+                if not same(got_dt, this):
+                    chk.fail(key + ':kernel-dt', 'step from t=%.6g: the sweep along axis %d got dt = %.12g, this_dt = min(dt, T - t) = %.12g' % (t0_, k + 1, got_dt, this), inp); bad = True; break
+            if bad: break
